@@ -70,7 +70,11 @@ OrderOwner(ev) ==
     LET ek == IF ev.e = "cb" THEN ev.k ELSE ev.e
         sk == NextSite.k
     IN IF ev.e = "hang" THEN {"C05", "C07"}      \* the thread spins without ever reaching NotifierDelay.wait()
-       ELSE IF ev.e = "exit" \/ pc \in {"crashed", "exited"} THEN {"C07"}
+       \* the program ended (or went on) where the specification has it going on (ended): C07's; when what was still
+       \* to come was a component's on_enable() / on_disable(), C06's as well ("on leaving, every component's on_disable()")
+       ELSE IF ev.e = "exit" \/ pc \in {"crashed", "exited"}
+       THEN {"C07"} \cup (IF ev.e = "exit" /\ ~ev.crashed /\ (sk \in Lifecycle \/ \E i \in 1..Len(todo) : todo[i].k \in Lifecycle)
+                          THEN {"C06"} ELSE {})
        ELSE {"C05"}
             \cup (IF ek \in Lifecycle \/ sk \in Lifecycle THEN {"C06"} ELSE {})
             \* an execute() outside the on_enable() / on_disable() bracket (test or disabled mode; not enabled yet)
